@@ -58,6 +58,11 @@ type Case struct {
 	Pack bool   `json:"pack"` // true: target written by CLIPacker.Pack; false: target assembled as binary+marker+archive(tree)
 	// Pack only: how the project directory is spelled on the command line (the same directory every time)
 	Spell int `json:"spell,omitempty"`
+	// Pack only: the target path already holds another, longer packed executable (tree "large") when Pack runs
+	Over bool `json:"over,omitempty"`
+	// the real command line binary is built, packed with the tree and started as a PROCESS with these arguments
+	// (all other fields but Tree unused)
+	Proc *ProcCase `json:"proc,omitempty"`
 }
 
 // spellings of one directory: 0 clean absolute, then trailing separator, /./ inside, /x/../ inside, doubled separator,
@@ -461,6 +466,9 @@ func runCase(c Case) *hx.Failure {
 	if e == nil {
 		panic("c20: runCase without setup")
 	}
+	if c.Proc != nil {
+		return runProc(c)
+	}
 	tr := e.trees[c.Tree]
 	if tr == nil || c.Len < 0 || c.Len > 1<<24 {
 		hx.E.Exclude("malformed-case")
@@ -491,7 +499,7 @@ func runCase(c Case) *hx.Failure {
 	}
 	hashNear := bytes.IndexByte(bin[lo:], '#') >= 0
 	nontrivial := nearB || hashNear
-	key := fmt.Sprintf("%d|%s|%q|%d|%s|%v|%d", c.Len, c.Base, c.Frag, c.Gap, c.Tree, c.Pack, c.Spell)
+	key := fmt.Sprintf("%d|%s|%q|%d|%s|%v|%d|%v", c.Len, c.Base, c.Frag, c.Gap, c.Tree, c.Pack, c.Spell, c.Over)
 	classes := []string{"base." + c.Base, "tree." + c.Tree}
 	if c.Pack {
 		classes = append(classes, "mode.pack")
@@ -535,6 +543,16 @@ func runCase(c Case) *hx.Failure {
 			panic(err)
 		}
 		os.Remove(e.dst)
+		if c.Over {
+			// an earlier build of another project sits at the target path: longer, with its own archive at the end
+			old := e.trees["large"]
+			junk := append(append(append([]byte{}, bin...), bin...), []byte(marker)...)
+			junk = append(junk, old.zip...)
+			if err := os.WriteFile(e.dst, junk, 0755); err != nil {
+				panic(err)
+			}
+			hx.E.Class("pack.over-existing-longer-target", 1)
+		}
 		var perr error
 		pdir := spell(tr.dir, c.Spell)
 		hx.E.Class(fmt.Sprintf("pack.dir-spelling.%d", c.Spell%nSpell), 1)
@@ -671,7 +689,7 @@ func TestExhaustive(t *testing.T) {
 		for _, b := range sb {
 			for l := 0; l <= n; l++ {
 				i++
-				c := Case{Len: l, Base: b, Tree: treeNames[(l/7+i)%len(treeNames)], Pack: i%5 == 0, Spell: (i / 5) % nSpell}
+				c := Case{Len: l, Base: b, Tree: treeNames[(l/7+i)%len(treeNames)], Pack: i%5 == 0, Spell: (i / 5) % nSpell, Over: i%5 == 0 && (i/5)%3 == 1}
 				if !yield(c) {
 					return
 				}
@@ -688,7 +706,7 @@ func TestExhaustive(t *testing.T) {
 			for _, tn := range treeNames {
 				for _, l := range wl {
 					i++
-					if !yield(Case{Len: l, Base: b, Tree: tn, Pack: i%3 == 0, Spell: (i / 3) % nSpell}) {
+					if !yield(Case{Len: l, Base: b, Tree: tn, Pack: i%3 == 0, Spell: (i / 3) % nSpell, Over: i%3 == 0 && (i/3)%3 == 1}) {
 						return
 					}
 				}
@@ -766,6 +784,7 @@ func TestProp(t *testing.T) {
 		c.Pack = rapid.IntRange(0, 3).Draw(rt, "pack") == 0
 		if c.Pack {
 			c.Spell = rapid.IntRange(0, nSpell-1).Draw(rt, "spell")
+			c.Over = rapid.IntRange(0, 2).Draw(rt, "over") == 0
 		}
 		return c
 	}, runCase)
